@@ -7,6 +7,7 @@ import (
 	"fmt"
 
 	jlib "github.com/jsightapi/jsight-schema-go-library"
+	liberrors "github.com/jsightapi/jsight-schema-go-library/errors"
 	"github.com/jsightapi/jsight-schema-go-library/formats/json"
 	"github.com/jsightapi/jsight-schema-go-library/notations/jschema"
 	"github.com/jsightapi/jsight-schema-go-library/notations/regex"
@@ -59,8 +60,13 @@ func FromErr(err error) Res {
 	}
 	r := Res{Type: fmt.Sprintf("%T", err)}
 	var c coder
+	var bare liberrors.Err
 	if errors.As(err, &c) {
 		r.Code = c.ErrCode()
+	} else if errors.As(err, &bare) {
+		// a bare errors.Errorf / ErrorCode value: it has a code but no ErrCode()
+		r.Code = int(bare.Code())
+		r.Type += " (bare)"
 	} else {
 		r.Code = -1
 	}
@@ -108,6 +114,9 @@ type SchemaSpec struct {
 	Text        string    `json:"schema"`
 	Types       []TypeDef `json:"types,omitempty"`
 	OptionalDef bool      `json:"keys_optional_by_default,omitempty"`
+	// Mesh: every user type is also added to every other user type's schema
+	// object (the usage in which type schemas can resolve their own references).
+	Mesh bool `json:"mesh,omitempty"`
 }
 
 // Build constructs the schema object and adds rules and types. The returned
@@ -130,6 +139,27 @@ func Build(sp SchemaSpec) (s *jschema.Schema, res Res) {
 			}
 		}
 	}
+	typeObjs := map[string]*jschema.Schema{}
+	if sp.Mesh {
+		for _, t := range sp.Types {
+			if t.Kind == "" {
+				var topts []jschema.Option
+				if sp.OptionalDef {
+					topts = append(topts, jschema.KeysAreOptionalByDefault())
+				}
+				typeObjs[t.Name] = jschema.New(t.Name, t.Text, topts...)
+			}
+		}
+		for _, a := range sp.Types {
+			for _, b := range sp.Types {
+				if a.Kind == "" && b.Kind == "" {
+					if err := typeObjs[a.Name].AddType(b.Name, typeObjs[b.Name]); err != nil {
+						return s, FromErr(err)
+					}
+				}
+			}
+		}
+	}
 	for _, t := range sp.Types {
 		switch t.Kind {
 		case "":
@@ -137,7 +167,11 @@ func Build(sp SchemaSpec) (s *jschema.Schema, res Res) {
 			if sp.OptionalDef {
 				topts = append(topts, jschema.KeysAreOptionalByDefault())
 			}
-			if err := s.AddType(t.Name, jschema.New(t.Name, t.Text, topts...)); err != nil {
+			obj := typeObjs[t.Name]
+			if obj == nil {
+				obj = jschema.New(t.Name, t.Text, topts...)
+			}
+			if err := s.AddType(t.Name, obj); err != nil {
 				return s, FromErr(err)
 			}
 		case "regex":
